@@ -488,9 +488,18 @@ Proof.
   apply IH. apply wf_put; auto. apply wf_ts_of.
 Qed.
 
+Lemma restoresb_sound tables up down : restoresb tables up down = true -> restores tables up down.
+Proof.
+  unfold restoresb, restores. destruct down as [d|e]; [|discriminate].
+  destruct (apply_ops up (db_of tables)) as [B|] eqn:HB; [|discriminate]. intros H.
+  apply andb_true_iff in H as [H H3]. apply andb_true_iff in H as [H1 H2]. apply decb_true in H1. apply decb_true in H2.
+  exists d, B. auto.
+Qed.
+
 Lemma check_C09_sound i o : check_C09 i o = true -> C09_holds i o.
 Proof.
-  destruct i as [x|up|tables up], o as [r rr df dfr sql|down|down upup ok]; cbn [check_C09 C09_holds]; try discriminate; intros H.
+  destruct i as [x|up|tables up|tables t s ch], o as [r rr df dfr sql|down|down upup ok|up' down]; cbn [check_C09 C09_holds];
+    try discriminate; intros H.
   - apply andb_true_iff in H as [H H4]. apply andb_true_iff in H as [H H3]. apply andb_true_iff in H as [H1 H2].
     split; [|split; [|split]].
     + intros x' ->. apply decb_true in H1. exact H1.
@@ -500,14 +509,19 @@ Proof.
   - apply andb_true_iff in H as [H1 H2]; split.
     + intros d ->. apply andb_true_iff in H1 as [H1 H3]. apply decb_true in H1. split; auto.
     + intros u ->. eapply forall2b_Forall2; [|exact H2]. apply ddl_equivb_top_sound.
-  - destruct down as [d|e]; [|discriminate]. destruct (apply_ops up (db_of tables)) as [B|] eqn:HB; [|discriminate].
-    apply andb_true_iff in H as [H1 H2]. apply decb_true in H1. apply decb_true in H2.
-    exists d, B. auto.
+  - apply restoresb_sound; auto.
+  - apply restoresb_sound; auto.
+Qed.
+
+Lemma restores_model tables up : undoable_ops up (db_of tables) = true -> restores tables up (reverse_ops up).
+Proof.
+  intros Hs. destruct (undo_ops up (db_of tables) (wf_db_of tables) Hs) as (d & B & Hd & Hap & Hback & _).
+  exists d, B. repeat split; auto. apply reverse_ops_kinds; auto.
 Qed.
 
 Lemma model_C09_holds i : inclass_C09 i = true -> C09_holds i (model_C09 i).
 Proof.
-  destruct i as [x|up|tables up]; cbn [inclass_C09 model_C09 C09_holds]; intros Hs.
+  destruct i as [x|up|tables up|tables t s ch]; cbn [inclass_C09 model_C09 C09_holds]; intros Hs.
   - apply andb_true_iff in Hs as [Hs Hd]. split; [|split; [|split]].
     + intros x' H. apply reverse_top_kind; auto.
     + intros x'' H. split; [|reflexivity].
@@ -521,8 +535,29 @@ Proof.
     + intros u H.
       destruct (reverse_ops up) as [d|e] eqn:Hd; cbn [bind] in H; [|discriminate].
       destruct (reverse_ops_involutive _ _ Hs Hd) as [y [Hy He]]. rewrite Hy in H. inversion H; subst. exact He.
-  - destruct (undo_ops up (db_of tables) (wf_db_of tables) Hs) as (d & B & Hd & Hap & Hback & _).
-    exists d, B. repeat split; auto. apply reverse_ops_kinds; auto.
+  - apply restores_model; auto.
+  - apply restores_model; auto.
+Qed.
+
+(* had compare.py captured the metadata's object for the drop (the stored original of the DropConstraintOp = the NEW unique
+   constraint), the upgrade would read the same and apply the same, but the captured payload would not describe the database
+   and the downgrade would re-create the new columns *)
+Definition w_cap_tables : list tdesc :=
+  [ mkT [116%N] None [mkCol [97%N] 1%N true None None false false; mkCol [98%N] 1%N true None None false false] 
+        [CUq (Some [117%N]) [116%N] None [[97%N]] None None 0%N] [] None [] 0%N ].
+Definition w_cap_old : constr := CUq (Some [117%N]) [116%N] None [[97%N]] None None 0%N.
+Definition w_cap_new : constr := CUq (Some [117%N]) [116%N] None [[97%N]; [98%N]] None None 0%N.
+Lemma capture_witness :
+  (* the real capture: undoable, restored *)
+  inclass_C09 (InChange w_cap_tables [116%N] None (ChUnique w_cap_old w_cap_new)) = true /\
+  (* old := new: same DDL for the upgrade, payload does not describe the database, database not restored *)
+  let bad := capture_ops [116%N] None (ChUnique w_cap_new w_cap_new) in
+  Forall2 ddl_equiv_top bad (capture_ops [116%N] None (ChUnique w_cap_old w_cap_new)) /\
+  undoable_ops bad (db_of w_cap_tables) = false /\
+  restoresb w_cap_tables bad (reverse_ops bad) = false.
+Proof.
+  split; [vm_compute; reflexivity|]. split; [|split; vm_compute; reflexivity].
+  constructor; [|constructor]. cbn. repeat split. constructor; [reflexivity|]. constructor; [reflexivity|constructor].
 Qed.
 
 (* ------------------------------------------------------------------ one operation; and what happens without the stored original *)
